@@ -257,7 +257,7 @@ impl Property for P {
     }
     fn cases(tier: Tier) -> u64 {
         match tier {
-            Tier::Quick => 2_500,
+            Tier::Quick => 10_000,
             Tier::Thorough => 80_000,
         }
     }
